@@ -65,6 +65,10 @@ pub(crate) mod vk {
         }
     }
     #[cfg(not(kani))]
+    extern crate std;
+    #[cfg(not(kani))]
+    use std::{vec::Vec, format, vec};
+    #[cfg(not(kani))]
     std::thread_local! {
         static VALUES: core::cell::RefCell<(Vec<Vec<u8>>, usize)> = core::cell::RefCell::new((Vec::new(), 0));
     }
@@ -102,30 +106,78 @@ pub(crate) mod vk {
         }
     }
 
+    // ------------------------------------------------------------------ error kinds (std and no_std builds)
+    #[derive(PartialEq, Eq, Clone, Copy, Debug)]
+    pub(crate) enum Kind { Eof, Interrupted, InvalidData, InvalidInput, OutOfMemory, Other, Unsupported, WriteZero, Unknown }
+
+    #[cfg(feature = "std")]
+    pub(crate) fn kind_of(e: &Error) -> Kind {
+        use std::io::ErrorKind as K;
+        match e.kind() {
+            K::UnexpectedEof => Kind::Eof,
+            K::Interrupted => Kind::Interrupted,
+            K::InvalidData => Kind::InvalidData,
+            K::InvalidInput => Kind::InvalidInput,
+            K::OutOfMemory => Kind::OutOfMemory,
+            K::Other => Kind::Other,
+            K::Unsupported => Kind::Unsupported,
+            K::WriteZero => Kind::WriteZero,
+            _ => Kind::Unknown,
+        }
+    }
+    #[cfg(feature = "std")]
+    pub(crate) fn mk_err(k: Kind) -> Error {
+        use std::io::ErrorKind as K;
+        Error::from(match k {
+            Kind::Eof => K::UnexpectedEof,
+            Kind::Interrupted => K::Interrupted,
+            Kind::InvalidData => K::InvalidData,
+            Kind::InvalidInput => K::InvalidInput,
+            Kind::OutOfMemory => K::OutOfMemory,
+            Kind::Other => K::Other,
+            Kind::Unsupported => K::Unsupported,
+            Kind::WriteZero => K::WriteZero,
+            Kind::Unknown => K::ConnectionReset,
+        })
+    }
+    #[cfg(not(feature = "std"))]
+    pub(crate) fn kind_of(e: &Error) -> Kind {
+        match e {
+            Error::EOF => Kind::Eof,
+            Error::Interrupted => Kind::Interrupted,
+            Error::InvalidData(_) => Kind::InvalidData,
+            Error::InvalidInput(_) => Kind::InvalidInput,
+            Error::OutOfMemory(_) => Kind::OutOfMemory,
+            Error::Other(m) => if m.len() == 13 { Kind::Unknown } else { Kind::Other },
+            Error::Unsupported(_) => Kind::Unsupported,
+            Error::WriteZero(_) => Kind::WriteZero,
+        }
+    }
+    #[cfg(not(feature = "std"))]
+    pub(crate) fn mk_err(k: Kind) -> Error {
+        match k {
+            Kind::Eof => Error::EOF,
+            Kind::Interrupted => Error::Interrupted,
+            Kind::InvalidData => Error::InvalidData(""),
+            Kind::InvalidInput => Error::InvalidInput(""),
+            Kind::OutOfMemory => Error::OutOfMemory(""),
+            Kind::Other => Error::Other(""),
+            Kind::Unsupported => Error::Unsupported(""),
+            Kind::WriteZero => Error::WriteZero(""),
+            Kind::Unknown => Error::Other("injected fault"),
+        }
+    }
+
     // ------------------------------------------------------------------ error constructor stubs
-    // `io::Error::new(kind, &str)` boxes a String; its drop glue makes CBMC blow up. The stubs keep
-    // the ErrorKind, which is all that any contract in /verif talks about.
-    pub(crate) fn err_eof() -> Error {
-        Error::from(std::io::ErrorKind::UnexpectedEof)
-    }
-    pub(crate) fn err_other(_m: &'static str) -> Error {
-        Error::from(std::io::ErrorKind::Other)
-    }
-    pub(crate) fn err_invalid_input(_m: &'static str) -> Error {
-        Error::from(std::io::ErrorKind::InvalidInput)
-    }
-    pub(crate) fn err_invalid_data(_m: &'static str) -> Error {
-        Error::from(std::io::ErrorKind::InvalidData)
-    }
-    pub(crate) fn err_out_of_memory(_m: &'static str) -> Error {
-        Error::from(std::io::ErrorKind::OutOfMemory)
-    }
-    pub(crate) fn err_unsupported(_m: &'static str) -> Error {
-        Error::from(std::io::ErrorKind::Unsupported)
-    }
-    pub(crate) fn err_copy(e: &Error) -> Error {
-        Error::from(e.kind())
-    }
+    // std build: `io::Error::new(kind, &str)` boxes a String; its drop glue makes CBMC blow up. The stubs keep
+    // the ErrorKind, which is all that any contract in /verif talks about. (no_std build: same values as the originals.)
+    pub(crate) fn err_eof() -> Error { mk_err(Kind::Eof) }
+    pub(crate) fn err_other(_m: &'static str) -> Error { mk_err(Kind::Other) }
+    pub(crate) fn err_invalid_input(_m: &'static str) -> Error { mk_err(Kind::InvalidInput) }
+    pub(crate) fn err_invalid_data(_m: &'static str) -> Error { mk_err(Kind::InvalidData) }
+    pub(crate) fn err_out_of_memory(_m: &'static str) -> Error { mk_err(Kind::OutOfMemory) }
+    pub(crate) fn err_unsupported(_m: &'static str) -> Error { mk_err(Kind::Unsupported) }
+    pub(crate) fn err_copy(e: &Error) -> Error { mk_err(kind_of(e)) }
 
     // ------------------------------------------------------------------ fixed-size sink / source
     /// Fixed-capacity sink: `Vec<u8>` growth is expensive for CBMC. Overflow of the capacity is a
@@ -145,11 +197,7 @@ pub(crate) mod vk {
     impl<const N: usize> Write for Sink<N> {
         fn write(&mut self, b: &[u8]) -> Result<usize> {
             assert!(self.len + b.len() <= N, "verif sink capacity exceeded");
-            let mut i = 0;
-            while i < b.len() {
-                self.buf[self.len + i] = b[i];
-                i += 1;
-            }
+            self.buf[self.len..self.len + b.len()].copy_from_slice(b);
             self.len += b.len();
             Ok(b.len())
         }
@@ -173,11 +221,7 @@ pub(crate) mod vk {
         fn read(&mut self, out: &mut [u8]) -> Result<usize> {
             let avail = self.len - self.pos;
             let n = if out.len() < avail { out.len() } else { avail };
-            let mut i = 0;
-            while i < n {
-                out[i] = self.buf[self.pos + i];
-                i += 1;
-            }
+            out[..n].copy_from_slice(&self.buf[self.pos..self.pos + n]);
             self.pos += n;
             Ok(n)
         }
@@ -204,11 +248,11 @@ pub(crate) mod vk {
             let call = self.calls;
             self.calls += 1;
             if call == self.fail_at {
-                return Err(Error::from(std::io::ErrorKind::ConnectionReset));
+                return Err(mk_err(Kind::Unknown));
             }
             if self.interrupts_left > 0 && any::<bool>() {
                 self.interrupts_left -= 1;
-                return Err(Error::from(std::io::ErrorKind::Interrupted));
+                return Err(mk_err(Kind::Interrupted));
             }
             let avail = self.len - self.pos;
             let want = if out.len() < avail { out.len() } else { avail };
@@ -219,11 +263,7 @@ pub(crate) mod vk {
             } else {
                 want
             };
-            let mut i = 0;
-            while i < n {
-                out[i] = self.buf[self.pos + i];
-                i += 1;
-            }
+            out[..n].copy_from_slice(&self.buf[self.pos..self.pos + n]);
             self.pos += n;
             Ok(n)
         }
